@@ -38,6 +38,11 @@ type World struct {
 	last    string
 	ops     int64 // number of seam operations seen
 	skip    func(rel string) bool
+	// lastStat is the stat fingerprint (names, sizes, modification times) of the directory right after the last
+	// operation; preImages counts the images taken BEFORE an operation because the fingerprint had moved, i.e. the
+	// code under test changed the directory outside the seams (a direct os.Remove, a library's temp file, ...).
+	lastStat  string
+	preImages int64
 	// OnOp, if set, is invoked (under the world lock) before each operation with its label.
 	OnOp func(label string)
 }
@@ -52,7 +57,7 @@ func NewWorld(root, imgBase string) *World {
 func (w *World) SetSkip(fn func(rel string) bool) { w.skip = fn }
 
 // Enable switches imaging on/off (operations still run under the world lock).
-func (w *World) Enable(on bool) { w.mu.Lock(); w.enabled = on; w.mu.Unlock() }
+func (w *World) Enable(on bool) { w.mu.Lock(); w.enabled = on; w.lastStat = ""; w.mu.Unlock() }
 
 // Root returns the imaged directory.
 func (w *World) Root() string { return w.root }
@@ -79,9 +84,11 @@ func (w *World) Do(label string, op func() error) error {
 	if w.OnOp != nil {
 		w.OnOp(label)
 	}
+	w.preImageLocked(label)
 	err := op()
 	if w.enabled {
 		w.imageLocked(label)
+		w.lastStat = w.statFingerprint()
 	}
 	return err
 }
@@ -95,11 +102,62 @@ func (w *World) DoMaybe(label string, op func() (changed bool, err error)) error
 	if w.OnOp != nil {
 		w.OnOp(label)
 	}
+	w.preImageLocked(label)
 	changed, err := op()
 	if w.enabled && changed {
 		w.imageLocked(label)
 	}
+	if w.enabled {
+		w.lastStat = w.statFingerprint()
+	}
 	return err
+}
+
+// PreImages returns how many images were taken before an operation because the directory had changed outside
+// the seams since the previous operation.
+func (w *World) PreImages() int64 { w.mu.Lock(); defer w.mu.Unlock(); return w.preImages }
+
+// preImageLocked images the directory BEFORE an operation when it changed since the previous operation ended:
+// such a change was made outside the seams, and the state between it and the coming operation is a crash state
+// as well (the image after the coming operation would hide it).
+func (w *World) preImageLocked(label string) {
+	if !w.enabled || w.lastStat == "" {
+		return
+	}
+	if fp := w.statFingerprint(); fp != w.lastStat {
+		n := len(w.images)
+		w.imageLocked("before " + label + " (directory changed outside the seams)")
+		if len(w.images) > n {
+			w.preImages++
+		}
+	}
+}
+
+// statFingerprint is a cheap fingerprint of the directory: relative names, sizes and modification times.
+func (w *World) statFingerprint() string {
+	hh := sha256.New()
+	_ = filepath.Walk(w.root, func(p string, info os.FileInfo, err error) error {
+		if err != nil {
+			return nil
+		}
+		rel, _ := filepath.Rel(w.root, p)
+		if rel == "." {
+			return nil
+		}
+		if w.skip != nil && w.skip(rel) {
+			if info.IsDir() {
+				return filepath.SkipDir
+			}
+			return nil
+		}
+		if info.IsDir() {
+			fmt.Fprintf(hh, "D %s\n", rel)
+		} else {
+			fmt.Fprintf(hh, "F %s %d %d\n", rel, info.Size(), info.ModTime().UnixNano())
+		}
+		return nil
+	})
+	return hex.EncodeToString(hh.Sum(nil))
 }
 
 // Snapshot takes an image now (e.g. the initial state), under the world lock.
@@ -108,6 +166,7 @@ func (w *World) Snapshot(label string) {
 	defer w.mu.Unlock()
 	if w.enabled {
 		w.imageLocked(label)
+		w.lastStat = w.statFingerprint()
 	}
 }
 
